@@ -358,7 +358,10 @@ func (x *Exec) havocLvalue(st *State, e ast.Expr, cur Term) {
 	if cur.Sort.Kind == KMap && t.Sort.Kind == KMap {
 		x.c().axiom(tEq(x.c().mapNil(t), x.c().mapNil(cur)))
 	}
+	// writing the callee-modified pointee back into its container is a modelling device, not a Go map write
+	x.modelWrite++
 	x.assign(st, e, t)
+	x.modelWrite--
 }
 
 // callWithContract applies the modular call rule.
@@ -539,9 +542,11 @@ func (x *Exec) callWithContract(st *State, call *ast.CallExpr, fn *types.Func, c
 	if ct.Assumed {
 		c.note("assumed contract (dependency, unchecked): " + ct.Key)
 	}
+	x.modelWrite++
 	for _, w := range writebacks {
 		x.assign(st, w.e, w.t)
 	}
+	x.modelWrite--
 	return rs
 }
 
